@@ -30,53 +30,71 @@ theorem genNormPath_eq (env : Env) (cwd : Path) (x : Fp) : genNormPath env cwd x
   unfold genNormPath normPathSpec
   rfl
 
-/-- `_parse_and_validate_extension` -/
+set_option hygiene false in
+/-- after the search (`hr`: what it found is `parseExt`): along the decisions of the specification -/
+macro "pav_tail" : tactic => `(tactic|
+  (unfold parseAndValidateSpec
+   rw [hr]
+   cases parseExt (mapKeys m) x.fileName with
+   | none => simp
+   | some e =>
+     cases ext with
+     | none => simp
+     | some u =>
+       cases hn : normalizeExt (some u) with
+       | error err => simp [genNormalizeExtension_eq, Except.bind, hn]
+       | ok n => by_cases hne : n = some e <;> simp [genNormalizeExtension_eq, Except.bind, hn, hne]))
+
+/-- `_parse_and_validate_extension` — the search for the first known suffix join may be written as a `while` over a
+list that is popped, or as a `for` with a `break`: one proof script for each shape -/
 theorem genParseAndValidate_eq (x : Fp) (ext : OStr) (m : List (String × String)) :
     genParseAndValidate x ext m = parseAndValidateSpec x ext m := by
-  unfold genParseAndValidate
-  dsimp only
-  split
-  · -- the fuel never runs out: every pass shortens the list
-    rename_i h
-    refine absurd h (whileLoop_ne_none (fun _ => True) (fun s => s.2.length) _ _ ?_ _ _ trivial ?_)
-    · rintro ⟨k, l⟩ - hc
-      rcases l with _ | ⟨a, t⟩
-      · simp_all
-      · refine ⟨trivial, ?_⟩
-        by_cases ha : mapHas m a = true <;> simp [ha]
-    · simp [genPossibleExts_eq, possibleExts, Fp.suffixes, candidates_length]
-  · rename_i r h
-    have key := whileLoop_some (SearchInv (mapHas m) (genPossibleExts x)) _ _ ?_ _ _ _
-      (searchInv_init _ _) h
-    · obtain ⟨hinv, hexit⟩ := key
-      have hx : r.1 = none → r.2 = [] := by
-        intro h0
-        rcases r with ⟨k, l⟩
-        cases l <;> simp_all
-      have hr : r.1 = parseExt (mapKeys m) x.fileName := by
-        rw [searchInv_exit _ _ _ hinv hx, genPossibleExts_eq, find_possibleExts]
-      unfold parseAndValidateSpec
-      rw [hr]
-      -- along the decisions of the specification
-      cases parseExt (mapKeys m) x.fileName with
-      | none => simp
-      | some e =>
-        cases ext with
-        | none => simp
-        | some u =>
-          cases hn : normalizeExt (some u) with
-          | error err => simp [genNormalizeExtension_eq, Except.bind, hn]
-          | ok n => by_cases hne : n = some e <;> simp [genNormalizeExtension_eq, Except.bind, hn, hne]
-    · rintro ⟨k, l⟩ hP hc
-      rcases l with _ | ⟨a, t⟩
-      · simp_all
-      · have hk : k = none := by cases k <;> simp_all
-        subst hk
-        by_cases ha : mapHas m a = true
-        · simp only [List.headD_cons, List.tail_cons, ha, Bool.not_true, Bool.false_eq_true, ↓reduceIte]
-          exact searchInv_hit _ _ _ _ (mapHas_none m) ha hP
-        · simp only [List.headD_cons, List.tail_cons, ha, Bool.not_false, Bool.false_eq_true, ↓reduceIte]
-          exact searchInv_miss _ _ _ _ (by simpa using ha) hP
+  first
+  | -- (a) `while known is None and candidates: cand = candidates.pop(0) …`
+    unfold genParseAndValidate
+    dsimp only
+    split
+    · -- the fuel never runs out: every pass shortens the list
+      rename_i h
+      refine absurd h (whileLoop_ne_none (fun _ => True) (fun s => s.2.length) _ _ ?_ _ _ trivial ?_)
+      · rintro ⟨k, l⟩ - hc
+        rcases l with _ | ⟨a, t⟩
+        · simp_all
+        · refine ⟨trivial, ?_⟩
+          by_cases ha : mapHas m a = true <;> simp [ha]
+      · simp [genPossibleExts_eq, possibleExts, Fp.suffixes, candidates_length]
+    · rename_i r h
+      have key := whileLoop_some (SearchInv (mapHas m) (genPossibleExts x)) _ _ ?_ _ _ _
+        (searchInv_init _ _) h
+      · obtain ⟨hinv, hexit⟩ := key
+        have hx : r.1 = none → r.2 = [] := by
+          intro h0
+          rcases r with ⟨k, l⟩
+          cases l <;> simp_all
+        have hr : r.1 = parseExt (mapKeys m) x.fileName := by
+          rw [searchInv_exit _ _ _ hinv hx, genPossibleExts_eq, find_possibleExts]
+        pav_tail
+      · rintro ⟨k, l⟩ hP hc
+        rcases l with _ | ⟨a, t⟩
+        · simp_all
+        · have hk : k = none := by cases k <;> simp_all
+          subst hk
+          by_cases ha : mapHas m a = true
+          · simp only [List.headD_cons, List.tail_cons, ha, Bool.not_true, Bool.false_eq_true, ↓reduceIte]
+            exact searchInv_hit _ _ _ _ (mapHas_none m) ha hP
+          · simp only [List.headD_cons, List.tail_cons, ha, Bool.not_false, Bool.false_eq_true, ↓reduceIte]
+            exact searchInv_miss _ _ _ _ (by simpa using ha) hP
+  | -- (b) `for cand in candidates: if cand in map: known = cand; break`
+    unfold genParseAndValidate
+    dsimp only
+    generalize hfl : MenpoModel.Py.forLoop _ _ _ = res
+    have key := forLoop_first_hit_of (mapHas m) _ _ _ _ hfl ?_ ?_
+    · have hr : res.2 = parseExt (mapKeys m) x.fileName := by
+        rw [key, genPossibleExts_eq, find_possibleExts]
+      pav_tail
+    · intro k a; simp
+    · intro k a
+      by_cases ha : mapHas m a = true <;> simp [ha]
 
 /-- `importer_for_filepath` -/
 theorem genImporterFor_eq (x : Fp) (m : List (String × String)) :
